@@ -43,6 +43,13 @@ UNITS = {
                assumes=['a null out_json_buf is rejected by an `is_null()` test that returns 0 before its first use (checked syntactically by the extractor side condition; the harness exercises non-null buffers of every capacity incl. 0)',
                         'the serialisation call is replaced by a parameter holding the response bytes',
                         'null-argument guards of the other FFI entry points are not harnessed (kani-compiler panics once a harness reaches the engine)']),
+    'K6': dict(crate='searchlite-ffi', prefixes=['k6_'], title='pointer arguments of searchlite_search: null handle / query rejected before any dereference, null cursor never dereferenced, aggregation bytes read only through a non-null pointer and only aggs_len of them',
+               files=['searchlite-ffi/src/lib.rs'],
+               bounded={'k6_head_rejects_null_handle_and_query': 'query strings of at most 3 bytes + NUL', 'k6_cursor_null_is_none': 'cursor strings of at most 3 bytes + NUL',
+                        'k6_aggs_reads_only_given_bytes': 'aggs_len <= 4 for a non-null pointer (any aggs_len for a null pointer)'},
+               # k6_aggs_null_pointer_never_read: every aggs_len, loop-free on the unchanged code -> not bounded
+               assumes=['CStr::from_ptr(p).to_string_lossy().to_string() is replaced by a loop that reads p up to its NUL (Kani does not support the strlen intrinsic behind CStr::from_ptr), String::from_utf8_lossy by a loop reading every byte of the slice, serde_json::from_str by a stub with either outcome: std and serde_json read only inside the slices they are given',
+                        'the statements between these slices (query parsing, reader creation, request construction, the search itself) do not touch the raw pointers (read, not verified)']),
 }
 
 
@@ -62,6 +69,13 @@ def gen_ffi_slice():
         return False, 'extractor: %s' % e, [], []
     with open(os.path.join(GEN, 'ffi_copy.rs'), 'w') as f:
         f.write(gen.text())
+    try:
+        unit2, gen2, tf2 = extract.expand(os.path.join(VERIF, 'kani', 'ffi_inputs.tpl'))
+    except ExtractError as e:
+        return False, 'extractor: %s' % e, [], []
+    with open(os.path.join(GEN, 'ffi_inputs.rs'), 'w') as f:
+        f.write(gen2.text())
+    gen.rewrite_log.extend(gen2.rewrite_log)
     # side conditions on the part of searchlite_search the harness does not see:
     #  (1) out_json_buf is not used before the extracted tail, except inside a null test that returns 0;
     #  (2) the tail itself or such an earlier test rejects a null out_json_buf before any use.
